@@ -562,6 +562,31 @@ def sym_grad_occ_formula():
     return True, ""
 
 
+def fd_slope(E, h=1e-3):
+    """d/dt E(t) at t = 0 from two five-point stencils (steps h and h / 2) with Richardson extrapolation; returns (value, error estimate). The estimate is
+    the difference of the two stencils: comparisons with an analytic derivative allow for it, so that a direction along which the energy is strongly
+    non-linear (nearly rank-deficient random coefficients) cannot turn truncation error into an alarm."""
+    cache = {}
+
+    def e(t):
+        if t not in cache:
+            cache[t] = float(E(t))
+        return cache[t]
+
+    def five(hh):
+        return (8 * (e(hh) - e(-hh)) - (e(2 * hh) - e(-2 * hh))) / (12 * hh)
+
+    a, b = five(h), five(h / 2)
+    scale = max(abs(e(h)), abs(e(-h)), 1e-300)
+    return b + (b - a) / 15, abs(a - b) + 1e-13 * scale / h
+
+
+def fd_dev(ana, num, est):
+    """|ana - num| beyond the error estimate of the difference quotient."""
+    return max(0.0, abs(ana - num) - 2 * est)
+
+
+
 def nat_grad_occ(rng):
     """Central-difference slope of the band energy vs 2 Re<get_grad_occ, D> at orthonormal W, weighted k-points; one and two spin channels
     (different orbitals per channel)."""
@@ -580,14 +605,13 @@ def nat_grad_occ(rng):
         def E(t, W0=W0, D=D, scf=scf):
             return scf_step_occ(scf, [w + t * d for w, d in zip(W0, D)])
 
-        h = 1e-3
-        slope = (8 * (E(h) - E(-h)) - (E(2 * h) - E(-2 * h))) / (12 * h)
+        slope, est = fd_slope(E)
         lin = 0
         for ik in range(at.kpts.Nk):
             for sp in range(Nspin):
                 g = get_grad_occ(scf, ik, sp, W0, **scf._precomputed)
                 lin += 2 * np.real(np.sum(np.asarray(g).conj() * D[ik][sp]))
-        worst = max(worst, abs(slope - lin) / max(1.0, abs(slope)))
+        worst = max(worst, fd_dev(lin, slope, est) / max(1.0, abs(slope)))
     return worst
 
 
@@ -631,12 +655,11 @@ def nat_grad_nonconstant(rng):
         for sp in range(at.occ.Nspin):
             g = np.asarray(get_grad(scf, ik, sp, scf.W, **scf._precomputed))
             ana += 2 * np.real(np.vdot(g, D[ik][sp]))
-    h = 1e-3
-    num = (8 * (E(h) - E(-h)) - (E(2 * h) - E(-2 * h))) / (12 * h)
+    num, est = fd_slope(E)
     f = np.asarray(at.occ.f)
     if np.all(f == f[..., :1]):
         return 1.0  # the scenario must have non-constant fillings
-    return abs(ana - num) / max(1e-12, abs(num))
+    return fd_dev(ana, num, est) / max(1e-12, abs(num))
 
 
 def sym_grad_homogeneous():
@@ -680,15 +703,14 @@ def nat_grad_derivative(rng):
         scf.W = [w + t * d for w, d in zip(W0, D)]
         return scf_step(scf, 0)
 
-    h = 1e-4
-    slope = (E(h) - E(-h)) / (2 * h)
+    slope, est = fd_slope(E, h=2e-4)
     scf.W = W0
     scf_step(scf, 0)
     lin = 0
     for ik in range(at.kpts.Nk):
         g = get_grad(scf, ik, 0, scf.W, **scf._precomputed)
         lin += 2 * np.real(np.sum(g.conj() * D[ik][0]))
-    return abs(slope - lin) / max(1.0, abs(slope)) * 1e-2  # tolerance 1e-6 relative
+    return fd_dev(lin, slope, est) / max(1.0, abs(slope)) * 1e-2  # tolerance 1e-6 relative
 
 
 # =================================================================================================
@@ -948,8 +970,7 @@ def nat_grad_derivative_case(Nspin, xc):
             scf.W = [w + t * d for w, d in zip(W0, D)]
             return scf_step(scf, 0)
 
-        h = 1e-4
-        slope = (E(h) - E(-h)) / (2 * h)
+        slope, est = fd_slope(E, h=2e-4)
         scf.W = W0
         scf_step(scf, 0)
         lin = 0
@@ -957,7 +978,7 @@ def nat_grad_derivative_case(Nspin, xc):
             for s in range(Nspin):
                 g = get_grad(scf, ik, s, scf.W, **scf._precomputed)
                 lin += 2 * np.real(np.sum(g.conj() * D[ik][s]))
-        return abs(slope - lin) / max(1.0, abs(slope))
+        return fd_dev(lin, slope, est) / max(1.0, abs(slope))
 
     return f
 
@@ -1019,9 +1040,8 @@ def nat_grad_coarse_even_grid(xc, s=(6, 6, 8), pot="gth", unrestricted=None, kme
         scf.W = [w.copy() for w in W]
         scf._precompute()
         ana = sum(2 * np.real(np.vdot(np.asarray(get_grad(scf, ik, sp, scf.W, **scf._precomputed)), D[ik][sp])) for ik in range(at.kpts.Nk) for sp in range(at.occ.Nspin))
-        h = 1e-3
-        num = (8 * (E(h) - E(-h)) - (E(2 * h) - E(-2 * h))) / (12 * h)
-        return abs(ana - num) / abs(num)
+        num, est = fd_slope(E)
+        return fd_dev(ana, num, est) / abs(num)
     return f
 
 
@@ -1050,8 +1070,7 @@ def nat_grad_xc_params(rng):
             scf._precompute()
             return get_E(scf)
 
-        h = 1e-3
-        num = (8 * (E(h) - E(-h)) - (E(2 * h) - E(-2 * h))) / (12 * h)
+        num, est = fd_slope(E)
         scf.W = [w.copy() for w in W]
         scf._precompute()
         ana = sum(2 * np.real(np.vdot(np.asarray(get_grad(scf, ik, sp, scf.W, **scf._precomputed)), D[ik][sp])) for ik in range(at.kpts.Nk) for sp in range(2))
@@ -1062,7 +1081,7 @@ def nat_grad_xc_params(rng):
         scf0._precompute()
         if abs(get_E(scf0) - E(0.0)) < 1e-8:
             raise RuntimeError(f"harness: xc_params {par} do not change the energy of {xc}")
-        worst = max(worst, abs(ana - num) / abs(num), abs(plain - num) / abs(num))
+        worst = max(worst, fd_dev(ana, num, est) / abs(num), fd_dev(plain, num, est) / abs(num))
     return worst
 
 
@@ -1188,14 +1207,13 @@ def nat_grad_unocc(rng):
     def E(t):
         return scf_step_unocc(scf, [z + t * d for z, d in zip(Z0, D)])
 
-    h = 1e-3
-    slope = (8 * (E(h) - E(-h)) - (E(2 * h) - E(-2 * h))) / (12 * h)
+    slope, est = fd_slope(E)
     lin = 0
     for ik in range(at.kpts.Nk):
         for sp in range(2):
             g = get_grad_unocc(scf, ik, sp, Z0, **scf._precomputed)
             lin += 2 * np.real(np.sum(np.asarray(g).conj() * D[ik][sp]))
-    return abs(slope - lin) / max(1.0, abs(slope))
+    return fd_dev(lin, slope, est) / max(1.0, abs(slope))
 
 
 def nat_grad_without_kwargs(rng):
@@ -1507,13 +1525,12 @@ def nat_grad_occ_ionic_coarse(rng):
         def E(t, W0=W0, D=D, scf=scf):
             return scf_step_occ(scf, [w + t * d for w, d in zip(W0, D)])
 
-        h = 1e-3
-        slope = (8 * (E(h) - E(-h)) - (E(2 * h) - E(-2 * h))) / (12 * h)
+        slope, est = fd_slope(E)
         lin = 0
         for ik in range(at.kpts.Nk):
             for sp in range(2):
                 lin += 2 * np.real(np.sum(np.asarray(get_grad_occ(scf, ik, sp, W0, **scf._precomputed)).conj() * D[ik][sp]))
-        worst = max(worst, abs(slope - lin) / max(1.0, abs(slope)))
+        worst = max(worst, fd_dev(lin, slope, est) / max(1.0, abs(slope)))
     return worst
 
 
